@@ -38,11 +38,31 @@ Theorem C19_negative_stride_historical :
   wf_output "Dev" (dev IU8 [ex_reg "Ra" 30 RW (Some {| r_count := 3; r_stride := -2 |}) [ex_field "fa" RW None]]) = true.
 Proof. vm_compute. split; reflexivity. Qed.
 
-(* D9: any block ref — the target's struct (and impls) are emitted a second time (E0428/E0119/E0592). *)
-Theorem C19_block_ref_refuted :
-  wf_output "Dev" (dev IU8 [OBlock None "Ba" 0 None [ex_reg "Ra" 0 RW None [ex_field "fa" RW None]];
-                            ORef None "Bb" (OvBlock "Ba" (Some 100) None)]) = false.
-Proof. vm_compute. reflexivity. Qed.
+(* D9 (REPAIRED in /repo): any block ref used to make the generator emit the target's struct (and impls) a second time
+   (E0428/E0119/E0592).  Historical statement about the emission before the repair; the model of the emission as it is
+   now gives a block ref its accessor only, and the same definition meets every obligation. *)
+Theorem C19_block_ref_historical :
+  let d := dev IU8 [OBlock None "Ba" 0 None [ex_reg "Ra" 0 RW None [ex_field "fa" RW None]];
+                    ORef None "Bb" (OvBlock "Ba" (Some 100) None)] in
+  nodup_str ("Dev" :: block_structs_before_repair (tree_fuel d) (d_objects d) (d_objects d)) = false /\
+  wf_output "Dev" d = true /\ failing_obligations "Dev" d = [].
+Proof. vm_compute. repeat split; reflexivity. Qed.
+
+(* D22: a literal of the emitted address arithmetic does not fit the type of its position.  The internal address type is
+   sized for the FINAL addresses (find_best_internal_address), but the accessors write every object's own address, block
+   offset and |stride| as literals of that type: (a) `u8; block Ba @10 { register Ra @-1 }` — final address 9, internal
+   type u8, `self.base_address + -1` (E0277 `u8: Neg`); (b) `i16 registers; block @-30000 { register @40000 }` — final
+   10000, internal type i16, literal 40000 out of range; (c) `u8; register repeat 1 x 1000` — the only instance is at 5,
+   the stride literal 1000 is out of range for u8; (d) `i8; readable register @-100 repeat 3 x 100` — read_all_registers
+   writes `-100 + 2 * 100`, whose constant product overflows i8.  Tag D22 = the type error (negative literal of an unsigned
+   type), D22L = the deny-by-default lints (rustc reaches them only when the crate has no other error). *)
+Theorem C19_address_literal_refuted :
+  failing_obligations "Dev" (dev IU8 [OBlock None "Ba" 10 None [ex_reg "Ra" (-1) RW None [ex_field "fa" RW None]]]) = ["D22"] /\
+  failing_obligations "Dev" (dev II16 [OBlock None "Ba" (-30000) None [ex_reg "Ra" 40000 RW None [ex_field "fa" RW None]]]) = ["D22L"] /\
+  failing_obligations "Dev" (dev IU8 [ex_reg "Ra" 5 RW (Some {| r_count := 1; r_stride := 1000 |}) [ex_field "fa" RW None]]) = ["D22L"] /\
+  failing_obligations "Dev" (dev II8 [ex_reg "Ra" (-100) RW (Some {| r_count := 3; r_stride := 100 |}) [ex_field "fa" RW None]]) = ["D22L"] /\
+  failing_obligations "Dev" (dev IU8 [OBlock None "Ba" 10 None [ex_reg "Ra" 1 RW None [ex_field "fa" RW None]]]) = [].
+Proof. vm_compute. repeat split; reflexivity. Qed.
 
 (* D12: two variants with the same number (accepted by enum_values_checked: see C15) — E0081. *)
 Theorem C19_duplicate_discriminant_refuted :
@@ -108,32 +128,32 @@ Theorem C19_keyword_identifier_refuted :
   wf_output "Dev" (dev IU8 [ex_reg "Ra" 0 RW None [ex_field "fn" RW None]]) = false.
 Proof. vm_compute. repeat split; reflexivity. Qed.
 
-(* Strongest true statement: outside those classes — no block refs, every field readable, enum numbers pairwise distinct and
-   representable in the enum's repr type (non-negative below 2^carrier on uint/bool fields, within the signed range on int fields) — and with type names unique per namespace (driver name, blocks and
-   generated enums share the top level; field sets live in `mod field_sets`), the obligations hold; in
-   particular the block structs emitted are exactly the declared blocks, once each. *)
+(* Strongest true statement: outside those classes — every field readable, enum numbers pairwise distinct and
+   representable in the enum's repr type (non-negative below 2^carrier on uint/bool fields, within the signed range on
+   int fields), every literal of the address arithmetic inside the type of its position — and with type names unique per
+   namespace (driver name, blocks and generated enums share the top level; field sets live in `mod field_sets`), the
+   obligations hold; in particular the block structs emitted are exactly the declared blocks, once each — block refs
+   included, since the repair of D9. *)
 Theorem C19_wf_output_partial : forall driver d,
-  no_block_refs (tree_fuel d) (d_objects d) = true ->
   nodup_str (driver :: declared_blocks (tree_fuel d) (d_objects d) ++ map (fun x => e_name (fst (fst x))) (enums_of d)) = true ->
   nodup_str (field_set_type_names d) = true ->
   forallb (fun f => readable (f_access f)) (all_fields d) = true ->
   forallb enum_literals_ok (enums_of d) = true ->
   namespaces_ok driver d = true ->
   keyword_free driver d = true ->
+  address_literals_ok driver d = true ->
   wf_output driver d = true.
 Proof. exact wf_output_partial. Qed.
 
-(* The class tags the check compares with rustc are exactly the conjuncts of wf_output (a block ref, D9, is a named
-   cause of a top-level name collision rather than a conjunct of its own). *)
+(* The class tags the check compares with rustc are exactly the conjuncts of wf_output beyond the name checks. *)
 Theorem C19_no_failing_obligation_iff : forall driver d,
-  has_block_ref d = false ->
   (failing_obligations driver d = [] <->
    debug_refs_resolve d = true /\ forallb enum_literals_ok (enums_of d) = true /\
-   namespaces_ok driver d = true /\ keyword_free driver d = true).
+   namespaces_ok driver d = true /\ keyword_free driver d = true /\ address_literals_ok driver d = true).
 Proof. exact no_failing_obligation_iff. Qed.
 
 Theorem C19_block_structs_are_declared_blocks : forall fuel all objs,
-  no_block_refs fuel objs = true -> block_structs fuel all objs = declared_blocks fuel objs.
+  block_structs fuel all objs = declared_blocks fuel objs.
 Proof. exact block_structs_declared. Qed.
 
 (* Non-vacuity: a nested definition outside all classes satisfies every hypothesis and the conclusion. *)
@@ -141,12 +161,13 @@ Example C19_partial_inhabited :
   let d := dev II16 [OBlock None "Ba" 4 (Some {| r_count := 2; r_stride := 8 |})
                        [ex_reg "Ra" 1 RO (Some {| r_count := 2; r_stride := -1 |}) [ex_field "fa" RO None]];
                      ex_reg "Rb" 40 RW None [ex_field "fa" RW None]] in
-  no_block_refs (tree_fuel d) (d_objects d) = true /\ wf_output "Dev" d = true.
+  wf_output "Dev" d = true /\ failing_obligations "Dev" d = [].
 Proof. vm_compute. split; reflexivity. Qed.
 
 Print Assumptions C19_wo_field_refuted.
 Print Assumptions C19_negative_stride_historical.
-Print Assumptions C19_block_ref_refuted.
+Print Assumptions C19_block_ref_historical.
+Print Assumptions C19_address_literal_refuted.
 Print Assumptions C19_duplicate_discriminant_refuted.
 Print Assumptions C19_negative_discriminant_refuted.
 Print Assumptions C19_signed_discriminant_refuted.
